@@ -81,9 +81,9 @@ func c10Total(c *vrep.Ctx) {
 	for i, t := range ts {
 		cls[i] = c10Corpus(shape, t)
 	}
-	apis := []string{"Match", "MatchFrom(1-byte reads)", "Normalize", "AddContent+Match"}
+	apis := []string{"Match", "MatchFrom(1-byte reads)", "Normalize", "AddContent+Match", "Match after Normalize"}
 	limit := time.Duration(c.Pick(20, 60)) * time.Second
-	c.R.Rule = fmt.Sprintf("ALL strings of <=%d symbols over %d byte/macro symbols (invalid UTF-8, NUL, entities, 70 000-letter word, 1019 blanks, 500 hyphen-newlines, ...) x {Match, MatchFrom with 1-byte reads, Normalize, AddContent-then-Match} x thresholds %v on corpus shape %q; monitor: recover() around every call, watchdog of %v per case; non-trivial = distinct (string, api, threshold) cases", maxLen, len(c10Syms), ts, c10ShapeNames[shape], limit)
+	c.R.Rule = fmt.Sprintf("ALL strings of <=%d symbols over %d byte/macro symbols (invalid UTF-8, NUL, entities, 70 000-letter word, 1019 blanks, 500 hyphen-newlines, ...) x {Match, MatchFrom with 1-byte reads, Normalize, AddContent-then-Match, Match again after Normalize} x thresholds %v on corpus shape %q; monitor: recover() around every call, watchdog of %v per case; non-trivial = distinct (string, api, threshold) cases", maxLen, len(c10Syms), ts, c10ShapeNames[shape], limit)
 	c.Bound("max_symbols", maxLen)
 	c.Bound("corpus_shape", c10ShapeNames[shape])
 
@@ -157,6 +157,9 @@ func c10Total(c *vrep.Ctx) {
 						fresh.Match(in)
 						fresh.Match([]byte("aa bb cc aa bb"))
 						fresh.Match(nil)
+					case 4:
+						// the words Normalize has just learnt are known to the dictionary, but belong to no document
+						cl.Match(in)
 					}
 				})
 				started.Store(0)
